@@ -13,7 +13,12 @@ def f_ppaddmulw(v):
     t = v.b ^ P.mul(v.a, v.w); return dict(b=t & ((1 << (v.n * v.W)) - 1), ret=t >> (v.n * v.W))
 Fn('ppAddMulW', 'word', 'b:io[n] a:in[n] n:len w:w stack:stack[ppAddMulW_deep(n)]', rng(), dict(a=D_num('n'), b=D_num('n'), w=D_word),
    f=f_ppaddmulw, alias=('b=a',), **G)
-Fn('ppMul', 'void', 'c:out[n+m] a:in[n] n:len b:in[m] m:len stack:stack[ppMul_deep(n,m)]', rng2(), dict(a=D_num('n'), b=D_num('m')),
+def ppmul_shapes(N, W):
+    s = rng2()(N, W)
+    if N < 14:          # the table kernels end at 9 words: the (truncated) Karatsuba recursion of ppMulEq starts at 10
+        s += [dict(n=n, m=m) for n, m in ((10, 10), (11, 11), (12, 12), (13, 13), (10, 3), (3, 11), (11, 10))]
+    return s
+Fn('ppMul', 'void', 'c:out[n+m] a:in[n] n:len b:in[m] m:len stack:stack[ppMul_deep(n,m)]', ppmul_shapes, dict(a=D_num('n'), b=D_num('m')),
    f=lambda v: dict(c=P.mul(v.a, v.b)), alias=('a=b',), **G)
 Fn('ppSqr', 'void', 'b:out[2*n] a:in[n] n:len stack:stack[ppSqr_deep(n)]', rng(), dict(a=D_num('n')), f=lambda v: dict(b=P.mul(v.a, v.a)), **G)
 
